@@ -12,7 +12,19 @@ pub struct Shrunk {
     pub runs: usize,
 }
 
+thread_local! {
+    /// wall-clock limit for one minimisation (runs of big populations take a second each)
+    static DEADLINE: std::cell::Cell<Option<std::time::Instant>> = const { std::cell::Cell::new(None) };
+}
+
 fn fails(cfg: &Config, trace: &[Op], prop: &str, oracle: &str, runs: &mut usize) -> bool {
+    if let Some(d) = DEADLINE.with(|d| d.get()) {
+        if std::time::Instant::now() > d {
+            // out of time: every further candidate counts as "does not fail", which ends the search
+            *runs = usize::MAX / 2;
+            return false;
+        }
+    }
     *runs += 1;
     let r = run(cfg, trace);
     r.violations.iter().any(|v| v.property == prop && v.oracle == oracle)
@@ -55,6 +67,14 @@ fn simpler_ops(op: &Op) -> Vec<Op> {
             }
         }
         Op::Extend { behs } if behs.len() > 1 => v.push(Op::Extend { behs: behs[..1].to_vec() }),
+        Op::PushMany { beh, n } if *n > 1 => {
+            v.push(Op::PushMany { beh: *beh, n: n / 2 });
+            v.push(Op::PushMany { beh: *beh, n: n - 1 });
+        }
+        Op::FinishOldest { n } if *n > 1 => {
+            v.push(Op::FinishOldest { n: n / 2 });
+            v.push(Op::FinishOldest { n: n - 1 });
+        }
         Op::Poll { fresh: true } => v.push(Op::Poll { fresh: false }),
         Op::PollMany { max, fresh } => {
             v.push(Op::Poll { fresh: *fresh });
@@ -136,6 +156,14 @@ fn simpler_ops(op: &Op) -> Vec<Op> {
 }
 
 pub fn shrink(cfg: &Config, trace: &[Op], prop: &str, oracle: &str, budget: usize) -> Shrunk {
+    let secs = if budget <= 1500 { 40 } else { 240 };
+    DEADLINE.with(|d| d.set(Some(std::time::Instant::now() + std::time::Duration::from_secs(secs))));
+    let r = shrink_inner(cfg, trace, prop, oracle, budget);
+    DEADLINE.with(|d| d.set(None));
+    r
+}
+
+fn shrink_inner(cfg: &Config, trace: &[Op], prop: &str, oracle: &str, budget: usize) -> Shrunk {
     let mut cfg = cfg.clone();
     let mut trace = trace.to_vec();
     let mut runs = 0usize;
@@ -307,5 +335,7 @@ pub fn shrink(cfg: &Config, trace: &[Op], prop: &str, oracle: &str, budget: usiz
             }
         }
     }
+    // (a minimisation that ran out of time reports its run budget)
+    let runs = if runs >= usize::MAX / 2 { budget } else { runs };
     Shrunk { cfg, trace, runs }
 }
